@@ -12,7 +12,7 @@ CONSTANTS
   Kinds = {"waive", "stale", "equal"}
   Pols = {"leader"}
   SrcSet = {"request"}
-  Vias = {"api", "natsq"}
+  Vias = {"api"}
   MaxHolds = 0
   MaxSnaps = 1
   MaxInstalls = 1
